@@ -15,13 +15,13 @@ Open Scope N_scope.
     a finite map that refuses to overwrite — and its directory holds exactly the
     encoded entries of that map. *)
 Theorem C40_refines_map : forall ops, valid_ops ops = true ->
-  snd (fs_run false [] ops) = snd (mem_run [] ops) /\
-  fst (fs_run false [] ops) = enc_mem (fst (mem_run [] ops)).
+  snd (fs_run false [] ops) = snd (mem_run false [] ops) /\
+  fst (fs_run false [] ops) = enc_mem (fst (mem_run false [] ops)).
 Proof. exact fs_refines_mem. Qed.
 Print Assumptions C40_refines_map.
 
 Theorem C40_agrees_with_mem : forall ops, valid_ops ops = true ->
-  snd (fs_run false [] ops) = snd (mem_run [] ops).
+  snd (fs_run false [] ops) = snd (mem_run false [] ops).
 Proof. intros ops H. exact (proj1 (fs_refines_mem ops H)). Qed.
 Print Assumptions C40_agrees_with_mem.
 
@@ -29,7 +29,7 @@ Print Assumptions C40_agrees_with_mem.
     filesystem keystore and succeeds on the in-memory keystore (finding C40-1). *)
 Theorem C40_delete_missing_refuted :
   valid_ops [Del [97]] = true /\
-  snd (fs_run true [] [Del [97]]) = [ROther] /\ snd (mem_run [] [Del [97]]) = [ROk].
+  snd (fs_run true [] [Del [97]]) = [ROther] /\ snd (mem_run true [] [Del [97]]) = [ROk].
 Proof. exact delete_missing_refuted. Qed.
 Print Assumptions C40_delete_missing_refuted.
 
